@@ -123,6 +123,10 @@ def run(ctx, rep) -> None:
     scs = []
     for p in PROFILES:
         scs += H.gen_scenarios(ctx.seed, n // len(PROFILES), p)
+    # histories AND handler outcomes drawn by TLC itself (-simulate on Sim_Handling) are replayed into the real operator, too
+    tl = H.tlc_scenarios(ctx.seed + 1, 40 if ctx.quick else 800)
+    rep.extra['tlc_generated_histories'] = len(tl)
+    scs += tl
     _family.run_traces(rep, scs, '+'.join(PROFILES), nontrivial=lambda f: bool(f & FEATURES))
     from concurrent.futures import ProcessPoolExecutor
     oscs = once_scenarios(ctx.seed, 120 if ctx.quick else 2500)
